@@ -461,7 +461,7 @@ impl Prop for C13 {
             {
                 let texts: Vec<Vec<(u16, u8)>> = vec![vec![], vec![ka], vec![ka, aa], vec![ka, h, ka, i], vec![a, ka, ch], vec![ka, h, ka, aa, ch], vec![ka, aa, ka]];
                 let mut nby = 0u64;
-                for by in [O_ANSI, O_SQ, O_ENG, O_NUMPAD, O_PSUGG, O_ANSI | O_ENG | O_SQ, O_ANSI | O_NUMPAD | O_PSUGG] {
+                for by in [O_ANSI, O_SQ, O_ENG, O_NUMPAD, O_PSUGG, O_FSUGG, O_ANSI | O_ENG | O_SQ, O_ANSI | O_NUMPAD | O_PSUGG | O_FSUGG] {
                     for bits in [0u8, 5, 10, 15] {
                         for on in [false, true] {
                             let spec = CfgSpec { opts: spec_for(bits, on).opts | by, ..spec_for(bits, on) };
